@@ -23,8 +23,53 @@ pub fn parse_lex(f: &F, s: &str) -> Result<LexNarsese, String> {
     }
 }
 
+/// Fold a lexical value. Every public route to the fold must agree: the impl on the whole `Narsese`, the
+/// impl on the part it wraps (`Term` / `Sentence` / `Task`), and - where the folded sentence keeps its truth
+/// or the task its budget - the stand-alone folds of the truth and budget lists. A disagreement is an `Err`
+/// that names the routes (a check that only asks "does it return" ignores it; one that uses the value does not).
 pub fn fold(f: &F, x: LexNarsese) -> Result<Narsese, String> {
-    match quiet_catch(AssertUnwindSafe(|| x.try_fold_into(f.e).map_err(|e| format!("{e:?}")))) {
+    use crate::model::{budget_bits, cv_of, truth_bits};
+    use narsese::api::{GetBudget, GetTruth};
+    let fe = f.e;
+    let r = quiet_catch(AssertUnwindSafe(move || {
+        let whole = x.clone().try_fold_into(fe).map_err(|e| format!("{e:?}"));
+        let (part, truth, budget): (Result<Narsese, String>, Option<Result<Vec<u64>, ()>>, Option<Result<Vec<u64>, ()>>) = match x {
+            LexNarsese::Term(t) => (t.try_fold_into(fe).map(Narsese::Term).map_err(|e| format!("{e:?}")), None, None),
+            LexNarsese::Sentence(s) => {
+                let tr = s.truth.clone().try_fold_into(fe).map(|t| truth_bits(&t)).map_err(|_| ());
+                (s.try_fold_into(fe).map(Narsese::Sentence).map_err(|e| format!("{e:?}")), Some(tr), None)
+            }
+            LexNarsese::Task(t) => {
+                let tr = t.sentence.truth.clone().try_fold_into(fe).map(|x| truth_bits(&x)).map_err(|_| ());
+                let b = t.budget.clone().try_fold_into(fe).map(|x| budget_bits(&x)).map_err(|_| ());
+                (t.try_fold_into(fe).map(Narsese::Task).map_err(|e| format!("{e:?}")), Some(tr), Some(b))
+            }
+        };
+        match (&whole, &part) {
+            (Ok(a), Ok(b)) if cv_of(a) == cv_of(b) => {}
+            (Err(_), Err(_)) => {}
+            _ => return Err(format!("fold routes disagree: the impl on Narsese gives {:?}, the impl on the wrapped value gives {:?}", whole.as_ref().map(|n| crate::model::show_cv(&cv_of(n))), part.as_ref().map(|n| crate::model::show_cv(&cv_of(n))))),
+        }
+        if let Ok(n) = &whole {
+            let (got_truth, got_budget) = match n {
+                Narsese::Term(_) => (None, None),
+                Narsese::Sentence(s) => (s.get_truth().map(truth_bits), None),
+                Narsese::Task(t) => (t.get_truth().map(truth_bits), Some(budget_bits(t.get_budget()))),
+            };
+            if let (Some(g), Some(side)) = (&got_truth, &truth) {
+                if side.as_ref() != Ok(g) {
+                    return Err(format!("fold routes disagree: the folded value holds the truth {g:x?} but folding the truth list on its own gives {side:x?}"));
+                }
+            }
+            if let (Some(g), Some(side)) = (&got_budget, &budget) {
+                if side.as_ref() != Ok(g) {
+                    return Err(format!("fold routes disagree: the folded task holds the budget {g:x?} but folding the budget list on its own gives {side:x?}"));
+                }
+            }
+        }
+        whole
+    }));
+    match r {
         Ok(r) => r,
         Err(p) => Err(format!("PANIC: {p}")),
     }
@@ -39,13 +84,15 @@ pub fn is_panic(e: &str) -> bool {
     e.contains("PANIC: ")
 }
 
+/// Typst text of a value; the trait method and the generic `FormatterTypst::format` entry point must agree
 pub fn typst(n: &Narsese) -> Result<String, String> {
     match quiet_catch(AssertUnwindSafe(|| match n {
-        Narsese::Term(t) => t.format_to(&FormatterTypst),
-        Narsese::Sentence(s) => s.format_to(&FormatterTypst),
-        Narsese::Task(t) => t.format_to(&FormatterTypst),
+        Narsese::Term(t) => (t.format_to(&FormatterTypst), FormatterTypst.format(t)),
+        Narsese::Sentence(s) => (s.format_to(&FormatterTypst), FormatterTypst.format(s)),
+        Narsese::Task(t) => (t.format_to(&FormatterTypst), FormatterTypst.format(t)),
     })) {
-        Ok(s) => Ok(s),
+        Ok((a, b)) if a == b => Ok(a),
+        Ok((a, b)) => Err(format!("Typst routes disagree: format_to gives {a:?}, FormatterTypst::format gives {b:?}")),
         Err(p) => Err(format!("PANIC: {p}")),
     }
 }
